@@ -972,16 +972,24 @@ WITNESSES = {"select-in-exec": witness_select, "blocking-in-exec": witness_block
 def main(tier, seed):
     rep = Report(PID, tier, seed)
     rep.rule = ("(i) twin runs: queues of 0-12 commands from the C01/C03 vocabulary (random-outcome and clock-reading commands excluded), ~15 % failing at run "
-                "time, wrong arity / unknown names, now and then SELECT and blocking pops, sent as MULTI..EXEC (frame by frame or in one write, with nested "
-                "MULTI / WATCH inside, EXEC/DISCARD without MULTI first) to server A and directly to a twin: EXEC's array must equal the direct replies and "
-                "the dumps must be equal; transactions ended by DISCARD, a closed socket or QUIT must leave the dataset untouched; every reply and dump "
-                "compared with the Lean model. (ii) interleaved schedules of 2-3 connections (transactions, plain commands, SELECT, disconnects), every reply "
-                "predicted by the model from that connection's own frames. (iii) real-time transfer workload (MULTI/EXEC, pipelined, Lua writers; MGET and "
-                "MULTI-GET readers; constant sum). (iv) witnesses of listed findings. distinct = (part, mode/connection state, command class, outcome) tuples")
+                "time, wrong arity / unknown names, SELECT, and blocking pops (BLPOP and BRPOP, 1-2 keys, lists empty / missing / non-empty / of another type), sent as "
+                "MULTI..EXEC (frame by frame or in one write, with nested MULTI / WATCH inside, EXEC/DISCARD without MULTI first) to server A and directly to a twin "
+                "(a queued blocking pop acting as its non-blocking variant): EXEC's array must equal the direct replies; transactions ended by DISCARD, a closed socket "
+                "or QUIT must leave the dataset untouched; after EVERY transaction a post-transaction probe: another connection pushes to every key the transaction "
+                "named (on A, on the twin, in the model) and the dumps must be equal to the twin's and to the prescribed state (a finished transaction has no further "
+                "effect); every reply and dump compared with the Lean model. (ii) interleaved schedules of 2-3 connections (transactions, plain commands, list traffic, "
+                "SELECT, disconnects) plus up to two third-party clients blocked in BLPOP/BRPOP on the keys the transactions push to: the model predicts every reply and "
+                "which blocked client is served what after which frame - never inside an EXEC, after it if an element is left. (iii) real-time transfer workload "
+                "(MULTI/EXEC, pipelined, Lua writers; MGET and MULTI-GET readers; constant sum). (iv) witnesses of the three deviations of the tree as found, against "
+                "the translator's switches. distinct = (part, mode/connection state, command class, outcome, blocked third party present, delivery) tuples")
     rep.assumptions = [
         "atomicity w.r.t. other clients is a theorem about the event-loop model `Tx.run` (one frame at a time, to completion); that Server::run has this structure is "
         "read off the source, re-checked coarsely by the translator (Gen.execIsSynchronous) and supported, not proved, by the invariant workload",
         "the expiry sweeper and BGSAVE threads are outside this model (C02, C10); TTLs used are >= 100 s",
+        "blocked clients: time-outs of waiters (third parties block with time-out 0) and the sweeps after EVAL/EVALSHA are outside the model (C13, C12); the oracle of the "
+        "twin runs for a queued blocking pop is its non-blocking variant sent directly",
+        "when the translator does not recognise a source shape it substitutes the pessimistic switch value and lists it in Gen.txUnrecognised: model and driver still build, "
+        "a table theorem refuses the list, and the TCP run searches for a failing input with the prescribed behaviour as the oracle",
         "the outcome of the WATCH check is an input of the model (`Req.watchOk`): C08 owns it",
         "command names are ASCII without blanks (process_frame trims and applies the Unicode to_uppercase, process_normal_command does not trim)",
         "pub/sub, AUTH, REPLCONF, MONITOR are modelled only as 'handed over to another subsystem' (reply not modelled)",
